@@ -18,6 +18,7 @@ from sim.boot import PKG
 CHECK = 'C15'
 LEVEL = 'fault_enumeration'
 SWEEP = 64
+DEEP_MEM_CAP = 1 << 30          # 1 GiB of address space per deep child
 MARGIN = 30
 
 DEPTHS_Q = [0, 1, 2, 3, 5, 8, 12, 20, 30, 45, 60]
@@ -232,7 +233,8 @@ def gen_deep(rng, tier, k):
     brk = ['paren', 'bracket', 'unclosed_paren', 'unclosed_bracket']
     quick = [(1000, 500, None), (1000, 1200, cheap), (3000, 250, None),
              (200, 300, None), (10000, 250, cheap), (1000, 6000, brk),
-             (100, 800, None), (1000, 400, None)]
+             (100, 800, None), (1000, 400, None), (1000, 40000, brk[:2]),
+             (1000, 40000, brk[2:])]
     thorough = quick + [(1000, 3000, cheap), (1000, 20000, cheap[:4]),
                         (100, 2000, None), (1000, 1000, None),(1000, 30000, cheap), (1000, 100000, cheap[:4]),
                         (20000, 700, cheap), (50000, 1000, cheap[:4]),
@@ -416,6 +418,16 @@ def run(spec, refs):
         optsig = ','.join(sorted((call.get('opts') or {}).keys())) or '-'
         cons = call['inp'].get('c', 'text')
         if deep:
+            # resource envelope of the deep stratum: the pinned tree rejects
+            # these inputs within a few dozen MB; the address-space cap
+            # turns runaway memory growth into a MemoryError / a dead child
+            # instead of an OOM-killed machine
+            try:
+                import resource
+                cap = spec.get('mem_cap', DEEP_MEM_CAP)
+                resource.setrlimit(resource.RLIMIT_AS, (cap, cap))
+            except (ImportError, ValueError, OSError):
+                pass
             old = sys.getrecursionlimit()
             sys.setrecursionlimit(spec['limit'])
             try:
@@ -423,6 +435,11 @@ def run(spec, refs):
             finally:
                 limit_delta = sys.getrecursionlimit() - spec['limit']
                 sys.setrecursionlimit(old)
+            if kind == 'other' and isinstance(val, MemoryError):
+                val = MemoryError('address-space cap of %d MiB exceeded'
+                                  % (spec.get('mem_cap', DEEP_MEM_CAP) >> 20))
+                import gc
+                gc.collect()
             H = P = None
             stat('deep_calls')
         else:
@@ -479,6 +496,23 @@ def run(spec, refs):
                 viols.append(v)
             else:
                 stat('escape_excused_by_control')
+        elif kind == 'other' and deep:
+            # no ample-stack reference exists for the deep stratum: excuse
+            # only an exception that the same call on 3 levels of the same
+            # construct raises too (then it is not about nesting)
+            small = dict(call, inp=dict(call['inp'], d=3))
+            k2, v2, _t2 = _do_faulted(small, None, 0)
+            if k2 == 'other' and type(v2) is type(val):
+                stat('other_exception_also_at_depth_3')
+            else:
+                viols.append(dict(
+                    base, cls='escape:' + type(val).__name__,
+                    msg='%s raised %s (%s) on %s nested %d deep at '
+                        'recursion limit %d; the same call at depth 3 ends '
+                        'with %s' % (call['api'], type(val).__name__,
+                                     str(val)[:100], cons,
+                                     call['inp'].get('d'), spec['limit'],
+                                     k2)))
         elif kind == 'other':
             ref = refs.get(ops.ref_key(call['api'], call['inp'],
                                        call['opts'], None))
